@@ -44,8 +44,15 @@ Feasible0(d) == (d.path = "repl" => d.kind \in UnpaidKinds)
 VictimCases == {<<Setup(k), [Probe(k) EXCEPT !.keyOk = FALSE, !.path = pa, !.parse = "victim",
                                            !.pay = IF k \in PaidKinds THEN OkPay ELSE NoPay]>> :
                    k \in PaidKinds \cup UnpaidKinds, pa \in {"client", "repl"}}
+\* a record of one family delivered to an address that holds a record of ANOTHER family: the scratchpad and the
+\* transactions of one owner share an address ("collide": the driver also builds the chunk whose bytes are the
+\* owner's public key, which hashes to the same address)
+CollideKinds == {"Scratchpad", "ScratchpadWithPayment", "Transaction", "TransactionWithPayment", "Chunk", "ChunkWithPayment"}
+CrossCases == {<<[Setup(k1) EXCEPT !.parse = "collide"], [Probe(k2) EXCEPT !.path = pa, !.parse = "collide", !.pay = IF k2 \in PaidKinds THEN OkPay ELSE NoPay]>> :
+                  k1 \in {"Scratchpad", "Transaction", "Chunk"}, k2 \in CollideKinds, pa \in {"client", "repl"}}
 SingleScenarios == {IF c[1] THEN <<Setup(c[2].kind), c[2]>> ELSE <<c[2]>> : c \in C03Cases \cup ParseCases}
               \cup {c \in VictimCases : Feasible0(c[2])}
+              \cup {c \in CrossCases : Feasible0(c[2]) /\ Base(c[1].kind) # Base(c[2].kind)}
 
 \* ---- C07 pools (one address per scenario)
 PadPool == {[D0 EXCEPT !.kind = k, !.path = pa, !.pay = IF k = "ScratchpadWithPayment" THEN OkPay ELSE NoPay,
@@ -93,7 +100,7 @@ PadIsHighestValid ==
 
 \* ---- case lists for the driver
 ToJsonD(d) == [path |-> d.path, kind |-> d.kind, key |-> IF d.keyOk THEN "derived" ELSE IF d.parse = "victim" THEN "victim" ELSE "other",
-               parse |-> IF d.parse = "victim" THEN "ok" ELSE d.parse,
+               parse |-> IF d.parse \in {"victim", "collide"} THEN "ok" ELSE d.parse, collide |-> d.parse = "collide",
                pay |-> d.pay, c |-> d.pad.c, sig |-> d.pad.sig, content |-> d.pad.content,
                txs |-> SetToSeq({[id |-> t.id, sig |-> IF t.ok THEN "ok" ELSE "bad"] : t \in d.txs}),
                ops |-> SetToSeq({[id |-> o.id, sig |-> IF o.ok THEN "ok" ELSE "bad"] : o \in d.ops})]
